@@ -11,12 +11,18 @@
 #include "schedex/vrt.h"
 #else
 #include <thread>
-#include <tuple>
 namespace vrt {
 inline void op(const char*) {}
 }
 #endif
 #include <memory>
+#include <tuple>
+#include <xmmintrin.h>
+static inline unsigned vf_x87cw() {   // x87 control word (rounding / precision control of long double arithmetic)
+    unsigned short cw;
+    __asm__ __volatile__("fnstcw %0" : "=m"(cw));
+    return cw;
+}
 
 using namespace vf;
 using namespace dsplib;
@@ -136,6 +142,10 @@ static std::vector<Scenario> make_scenarios(bool thorough) {
         free_fn("H2.irfft-lengths.t3", {{irfftop(12, 24), irfftop(20, 25)}, {irfftop(14, 26), irfftop(24, 27)},
                                         {Op{"IfftPlanR(16)", [] { IfftPlanR p(16); return H(p.solve(cletter(9, 28))); }}, irfftop(10, 29)}}, 1);
         free_fn("H2.fft-four-threads.t4", {{fftop(12, 61), rfftop(30, 62)}, {fftop(60, 63), irfftop(20, 64)}, {rfftop(15, 65), fftop(53, 66)}, {ifftop(45, 67), fftop(12, 68)}}, 1);
+        // more real lengths than a plan cache holds, the last thread inserting a new one while another looks up an old one:
+        // a cache that became shared behind per-method locks (exists ... get is not atomic) fails exactly here
+        free_fn("H2.rfft-evict.t4", {{rfftop(12, 91)}, {rfftop(14, 92), rfftop(18, 93), rfftop(20, 94)}, {rfftop(12, 95)}, {rfftop(22, 96)}}, 2);
+        free_fn("H2.fft-evict.t4", {{fftop(12, 97)}, {fftop(9, 98), fftop(15, 99), fftop(20, 100)}, {ifftop(12, 101)}, {fftop(21, 102)}}, 2);
         free_fn("H2.fft-same-length.t3", {{fftop(12, 21)}, {fftop(12, 22)}, {rfftop(12, 23)}}, 2);
         free_fn("H2.xcorr-fftfilter.t2",
                 {{Op{"xcorr", [] { return H(xcorr(rletter(20, 31), rletter(9, 32))); }},
@@ -263,6 +273,7 @@ struct Exec {
     double secs = 0;
 };
 
+static const uint64_t FPENV_MARK = 0xFEFEFEFE00000000ull;
 static const Scenario* g_sc = nullptr;
 static std::vector<std::vector<uint64_t>>* g_res = nullptr;
 
@@ -305,12 +316,16 @@ static Exec run_exec(const Scenario& sc, const std::vector<int>& prefix, int onl
                     for (auto& o : sc.prog[t]) {
                         vrt::op(o.label.c_str());
                         uint64_t h;
+                        const unsigned fp0 = (_mm_getcsr() & 0xFFC0u) | (vf_x87cw() << 16);
                         try {
                             h = o.fn();
                         } catch (const std::exception& ex) {   // an outcome like any other: compared with the reference
                             h = 0xE0000000ull;
                             for (const char* c = ex.what(); *c; ++c) h = mix(h, (uint64_t)(unsigned char)*c);
                         }
+                        // the operation must leave the thread's floating-point control state (rounding, FTZ, DAZ) alone
+                        const unsigned fp1 = (_mm_getcsr() & 0xFFC0u) | (vf_x87cw() << 16);
+                        if (fp1 != fp0) h = FPENV_MARK | (uint64_t)(fp1 & 0xFFFFFFu);
                         res[t].push_back(h);
                     }
                 });
@@ -413,7 +428,7 @@ struct Explorer {
     uint64_t top_idx = 0;
     std::set<std::string> outcomes;           // distinct result vectors observed
     std::set<std::string> race_sites;
-    bool race_reported = false, mismatch_reported = false, deadlock_reported = false;
+    bool race_reported = false, mismatch_reported = false, deadlock_reported = false, fpenv_reported = false;
     bool stop = false;
     bool coarse = false;                      // see explore(): first/last-per-address restriction for huge executions
     uint64_t coarse_skipped = 0;
@@ -499,6 +514,16 @@ struct Explorer {
             }
             race_reported = true;
         }
+        for (size_t t = 0; t < e.res.size() && !fpenv_reported; ++t)
+            for (size_t k = 0; k < e.res[t].size(); ++k)
+                if ((e.res[t][k] & 0xFFFFFFFF00000000ull) == FPENV_MARK) {
+                    fpenv_reported = true;
+                    ctx.fail_as("sched.fpenv", sc.name.substr(0, sc.name.find('.')).c_str(), P().kv("scenario", sc.name).str(),
+                                fmt("thread t%zu, operation '%s' changed the floating-point control state of its thread (MXCSR control bits / rounding mode now 0x%06llx; FTZ = bit 15, DAZ = bit 6)",
+                                    t + 1, k < sc.prog[t].size() ? sc.prog[t][k].label.c_str() : "?", (unsigned long long)(e.res[t][k] & 0xFFFFFFull)),
+                                "library calls leave rounding mode, flush-to-zero and denormals-are-zero flags as the caller set them");
+                    break;
+                }
         // (b) results equal the single-threaded ones
         outcomes.insert(res_key(e.res));
         if (e.res != ref && !mismatch_reported) {
